@@ -226,27 +226,29 @@ Section Respond.
   Variable execute : bool -> Schema -> exec_request Features Doc -> Z -> Resp.
   Variable run_subscription : bool -> Schema -> exec_request Features Doc -> Z -> list Resp.
   Variable pq_ext : (request -> Resp * list (event Features Ctx Doc)) -> request -> Resp * list (event Features Ctx Doc).
+  Variable marshal : Resp -> option bytes.
   Variable qk : quirks.
   Variable parse_std parse_jsi : bytes -> jparse.
   Variable render : json -> bytes.
 
-  Definition data_of (out : list (ws_out Resp)) : list Resp :=
-    flat_map (fun x => match x with WsData _ r => [r] | WsComplete _ => [] end) out.
+  Definition data_of (out : list ws_out) : list bytes :=
+    flat_map (fun x => match x with WsData _ payload => [payload] | WsComplete _ => [] end) out.
 
   (** What a client that submits [o] through [t] (in a session whose context is [c]; on a socket:
-      a connection initialised with that context, operation id [id]) gets back — the response
-      payload(s), [None] when the envelope is refused — and what the pipeline was called with. *)
+      a connection initialised with that context, operation id [id]) gets back — the marshalled
+      response payload(s); [None] when there is no 200 answer / the message is not answered — and
+      what the pipeline was called with. *)
   Definition respond (t : transport) (a : api Schema Features Ctx) (c : Ctx) (id : bytes) (o : op)
-    : option (list Resp) * list (event Features Ctx Doc) :=
+    : option (list bytes) * list (event Features Ctx Doc) :=
     match encode render t id o with
     | WHttp e =>
-        match serve_graphql no_features parse_validate execute pq_ext qk parse_std a c e with
-        | (HttpOK r, tr) => (Some [r], tr)
+        match serve_graphql no_features parse_validate execute pq_ext marshal qk parse_std a c e with
+        | (HttpOK body, tr) => (Some [body], tr)
         | (HttpError _, tr) => (None, tr)
         end
     | WWs p f =>
         let (hf, tr0) := handle_init (Doc := Doc) no_features a c in
-        match serve_ws parse_validate is_subscription execute run_subscription parse_jsi a p true hf (Some f) with
+        match serve_ws parse_validate is_subscription execute run_subscription marshal parse_jsi a p true hf (Some f) with
         | (WsAnswers out, tr) => (Some (data_of out), tr0 ++ tr)
         | (_, tr) => (None, tr0 ++ tr)
         end
@@ -261,7 +263,6 @@ End Respond.
 
 Arguments respond {Schema Features Ctx Doc Resp}.
 Arguments schema_obs_eq {Schema Features Doc Resp}.
-Arguments data_of {Resp}.
 
 (** ** beyond the canonical envelopes: the same JSON value as POST body and as socket payload *)
 Definition has_member (name : bytes) (l : list (bytes * json)) : bool :=
